@@ -95,6 +95,7 @@ type VC struct {
 	usedCon  map[string]bool
 	uncontracted map[string]bool
 	havocked bool
+	mergedResults []SVal
 }
 
 type debugBinding struct {
